@@ -248,4 +248,19 @@ pub fn run(r: &mut Runner) {
             }
         });
     }
+    {
+        // sinh, cosh, tanh are built on exp: its table-stratified alphabet (every entry of the 1/128, exp(1/2)^n and
+        // exp(16)^n tables, the ties of both index roundings with low words of either sign) belongs here too
+        let xs: Vec<[f64; 2]> = crate::props::c14::exp_alphabet(quick).into_iter().filter(|w| w[0].abs() <= 600.0).step_by(if quick { 3 } else { 1 }).collect();
+        let n = xs.len();
+        r.notes.push(format!("exp-table strata (the C14 alphabet restricted to |x| <= 600{}): {} arguments for sinh, cosh, tanh", if quick { ", every third" } else { "" }, n));
+        r.par("exp-table strata: sinh, cosh, tanh", n.div_ceil(64), n as u64, |c, l| {
+            for i in (c * 64)..((c + 1) * 64).min(n) {
+                for call in 0..3 {
+                    let v = judge(call, xs[i], Some(l));
+                    rec.record(l, (13u64 << 55) + (i * 4 + call) as u64, v);
+                }
+            }
+        });
+    }
 }
